@@ -44,6 +44,11 @@ var (
 	registry = map[string]*Recorder{}
 )
 
+// perPID: every process writes its own shard file VERIF_SHARD_OUT.pid<N>.json
+// and flushes it periodically (native fuzzing runs the target in worker
+// processes that never reach the end of TestMain).
+var perPID = os.Getenv("VERIF_SHARD_PER_PID") != ""
+
 // Get returns the recorder of a property, creating it on first use.
 func Get(property string) *Recorder {
 	regMu.Lock()
@@ -71,6 +76,10 @@ func Hash64(parts ...string) uint64 {
 // human-readable rendering, evaluated only when the case is kept as a sample.
 func (r *Recorder) Case(nontrivial bool, shape string, labels []string, sample func() any) {
 	r.mu.Lock()
+	if perPID && r.evaluations%500 == 499 {
+		// fuzz workers are killed by their coordinator: flush as we go
+		defer FlushAll()
+	}
 	defer r.mu.Unlock()
 	r.evaluations++
 	for _, l := range labels {
@@ -256,6 +265,9 @@ func FlushAll() {
 		b, _ := json.Marshal(sf)
 		r.mu.Unlock()
 		path := base
+		if perPID {
+			path = fmt.Sprintf("%s.pid%d.json", base, os.Getpid())
+		}
 		if i > 0 {
 			path = strings.TrimSuffix(base, ".json") + "." + id + ".json"
 		}
